@@ -16,3 +16,18 @@ Print Assumptions gen_informationalGuard_spec.
 Example informationalGuard_nonvacuous :
   map gen_informationalGuard [99; 100; 101; 103; 199; 200] = [false; true; false; true; true; false].
 Proof. reflexivity. Qed.
+
+(* Context.Redirect refuses (guard true) exactly the codes outside 300..308, and the regenerated guard is
+   literally the test of C14/Model.v ctx_redirect: any edit of the guard in context.go (an extra accepted
+   code such as 201, a moved bound) changes GenFuns.v and re-opens these two obligations *)
+Theorem gen_redirectGuard_is_model_C14 : forall code, gen_redirectGuard code = (code <? 300) || (308 <? code).
+Proof. exact redirectGuard_model_C14. Qed.
+Print Assumptions gen_redirectGuard_is_model_C14.
+
+Theorem gen_redirectGuard_accepts_300_308 : forall code, gen_redirectGuard code = false <-> 300 <= code <= 308.
+Proof. exact redirectGuard_spec_C14. Qed.
+Print Assumptions gen_redirectGuard_accepts_300_308.
+
+Example redirectGuard_C14_nonvacuous :
+  map gen_redirectGuard [200; 201; 299; 300; 304; 308; 309] = [true; true; true; false; false; false; true].
+Proof. reflexivity. Qed.
